@@ -450,9 +450,9 @@ func c16Handwritten(c *runner.Ctx, idx uint64) {
 		names  []string
 	}{
 		{"HEnv (value)", he, []probe{{"A", 1}, {"IV", 1}, {"HInner", 1}, {"HInner.IV", 1}, {"Fn(2)", 1}, {"ValM(1)", 1}, {"InnerM()", 1}, {"PtrM()", -1}, {"InnerPM()", -1}, {"unexpM()", 0},
-			{"Obj.N", 1}, {"Obj.Get()", 1}, {"Obj.Set(3)", 1}, {"Obj.Missing()", 0}, {"HInner.InnerM()", 1}, {"valM(1)", 0}, {"Missing()", 0}, {"A()", 0}, {"Obj.n", 0}},
+			{"ValM", -1}, {"[InnerM]", -1}, {"PtrM == nil", -1}, {"Obj.N", 1}, {"Obj.Get()", 1}, {"Obj.Set(3)", 1}, {"Obj.Missing()", 0}, {"HInner.InnerM()", 1}, {"valM(1)", 0}, {"Missing()", 0}, {"A()", 0}, {"Obj.n", 0}},
 			[]string{"A", "IV", "HInner", "Fn", "Obj", "ValM", "InnerM", "PtrM", "InnerPM", "unexpM"}},
-		{"*HEnv (pointer)", &he, []probe{{"A", 1}, {"IV", 1}, {"Fn(2)", 1}, {"ValM(1)", 1}, {"InnerM()", 1}, {"PtrM()", 1}, {"InnerPM()", 1}, {"unexpM()", 0}, {"Obj.Set(3)", 1}, {"Obj.Get()", 1}},
+		{"*HEnv (pointer)", &he, []probe{{"PtrM", -1}, {"ValM", -1}, {"A", 1}, {"IV", 1}, {"Fn(2)", 1}, {"ValM(1)", 1}, {"InnerM()", 1}, {"PtrM()", 1}, {"InnerPM()", 1}, {"unexpM()", 0}, {"Obj.Set(3)", 1}, {"Obj.Get()", 1}},
 			[]string{"A", "IV", "HInner", "Fn", "Obj", "ValM", "InnerM", "PtrM", "InnerPM", "unexpM"}},
 		{"map[string]interface{}", map[string]interface{}{"a": 1, "s": "x", "f": func(i int) int { return i }, "obj": &HEnvObj{N: 2}, "n": nil},
 			[]probe{{"a", 1}, {"s", 1}, {"f(1)", 1}, {"obj.N", 1}, {"obj.Get()", 1}, {"missing", 0}, {"A", 0}, {"n", -1}}, []string{"a", "s", "f", "obj", "n"}},
